@@ -119,8 +119,16 @@ def run_case(spec, ctx):
     with gen.quiet(), warnings.catch_warnings():
         warnings.simplefilter("ignore")
         kinds = ["Revolute", "Spherical", "Revolute"] if spec.get("actuated") else None      # actuated chains (motors / PD controllers sit on revolute joints)
+        ms = 1.0
+        if solver == "ScipyIVP" and rng.random() < 0.7:
+            # the same mechanism made of very light or very heavy parts (all masses, inertias, stiffnesses and torques scaled):
+            # the motion is the same, the forces and multipliers are not of order one (only for the ODE wrapper, whose
+            # tolerances are on q and u; the Newton tolerances of the other solvers are absolute force residuals)
+            ms = float(10.0 ** (rng.uniform(4, 8) if rng.random() < 0.6 else rng.uniform(-6, -2)))
+            ctx.cls(f"mass_scale:1e{int(np.floor(np.log10(ms)))}")
         S, bodies, joints, info = chaingen.build_chain(rng, closed=spec["closed"], base=spec["base"], t0=float(rng.normal()) if rng.random() < 0.3 else 0.0, actuators=True,
-                                                       joint_kinds=kinds, rest_start=bool(spec.get("rest_start")))
+                                                       joint_kinds=kinds, rest_start=bool(spec.get("rest_start")), mass_scale=ms)
+        info["mass_scale"] = ms
         if spec.get("rest_start") and spec["base"] != "origin":
             ctx.cls("base:starts_from_rest")
         rbs = [b for b in bodies if hasattr(b, "B_Theta_C")]
@@ -231,10 +239,14 @@ def run_case(spec, ctx):
                     cres = S.c(t[k], q[k], u[k], lac[k])
                     R = np.concatenate([R, cres])
                 gdd = S.g_ddot(t[k], q[k], u[k], ud[k])
-                fs = 1.0 + np.abs(S.h(t[k], q[k], u[k])).max() + (np.abs(lag[k]).max() if lag.size else 0.0)
-                if np.abs(R).max() / fs > worst_r:
-                    worst_r, kk = float(np.abs(R).max() / fs), k
-                worst_gdd = max(worst_gdd, float(np.abs(gdd).max() / (fs + vscale**2)) if gdd.size else 0.0)
+                # (force scale for the equations of motion, acceleration scale for the acceleration-level constraints; both
+                #  follow the mass scale of the mechanism)
+                fs = ms + np.abs(S.h(t[k], q[k], u[k])).max() + (np.abs(lag[k]).max() if lag.size else 0.0)
+                if np.abs(R[:S.nu]).max() / fs > worst_r:
+                    worst_r, kk = float(np.abs(R[:S.nu]).max() / fs), k
+                if S.nla_c and np.abs(R[S.nu:]).max() / (1.0 + fs / ms) > worst_r:
+                    worst_r, kk = float(np.abs(R[S.nu:]).max() / (1.0 + fs / ms)), k
+                worst_gdd = max(worst_gdd, float(np.abs(gdd).max() / (1.0 + fs / ms + vscale**2)) if gdd.size else 0.0)
             ctx.extra("max_eom:ScipyIVP", worst_r)
             if not worst_r <= 1e-7:
                 ctx.violation("ScipyIVP.solve", "reported accelerations and multipliers do not satisfy the equations of motion at an output time", {**det, "rel_residual": worst_r, "step": kk})
